@@ -7,7 +7,7 @@ P=$1; K=$2; WT=${WTROOT:-/tmp/wt}/$P; OUT=$WT/_out; DK=$((K+${KOFF:-0}))
 export GOFLAGS=-mod=mod GOPROXY=off GOSUMDB=off GOTOOLCHAIN=local; unset GOWORK
 cd $WT || exit 2
 git checkout -q -- . 
-DEMO=$(python3 -c "import json,re;d=re.sub(r'git apply [^&;]*(&&|;)','',json.load(open('$OUT/m$K.json'))['demo_cmd']);d=re.sub(r';\s*rm -f [^;&]*$','',d);print(d)")
+DEMO=$(python3 -c "import json,re;d=re.sub(r'git apply [^&;]*(&&|;)','',json.load(open('$OUT/m$K.json'))['demo_cmd']);d=re.sub(r'\s*#.*$','',d);d=re.sub(r';\s*rm (-[rf]+ )?[^;&]*$','',d);print(d)")
 [ -n "$DEMO_OVERRIDE" ] && DEMO="$DEMO_OVERRIDE"
 export CGO_LDFLAGS_ALLOW='.*' CGO_CFLAGS_ALLOW='.*'
 RUNS=$(python3 -c "import json;print(json.load(open('$OUT/m$K.json')).get('demo_runs_in_sandbox'))")
